@@ -365,6 +365,14 @@ def str_method(I, v, name, args, kwargs):
         a = args[0]
         if isinstance(a, VTuple):
             return VBool(z3.Or([f(x.t, t) for x in a.items]))
+        a = unopt(I, a)
+        if isinstance(a, (VSet, VBag)) and a.ek.sorts() == [S()]:
+            # s.startswith(<collection of strings>): some member is a prefix / suffix
+            g = fresh('g', S())
+            mem = z3.Select(a.arr, g) if isinstance(a, VSet) else z3.Select(a.arr, g) > 0
+            r = fresh(name, z3.BoolSort())
+            I.assume(r == z3.Exists([g], z3.And(mem, f(g, t))), 'str.%s over a collection: some member matches' % name)
+            return VBool(r)
         return VBool(f(sarg(0), t))
     if name == 'find':
         if len(args) > 1:
